@@ -24,6 +24,8 @@ type httpAnswer struct {
 	cutAt int
 	// chunked transfer encoding instead of Content-Length
 	chunked bool
+	// delay before anything is sent back (the announce is in flight meanwhile)
+	delay time.Duration
 }
 
 func (a *httpAnswer) raw() []byte {
@@ -89,6 +91,9 @@ func (s *httpServer) serve(c net.Conn) {
 	s.mu.Unlock()
 	if a == nil {
 		a = &httpAnswer{status: 500, cutAt: -1}
+	}
+	if a.delay > 0 {
+		time.Sleep(a.delay)
 	}
 	c.Write(a.raw())
 }
